@@ -31,6 +31,33 @@ class ScriptedWarning(Warning):
     """A warning category of the user's own (not a RuntimeWarning)."""
 
 
+class ScriptedError(Exception):
+    """An exception class of the user's own."""
+
+
+def scripted_exception(kind):
+    """The exception a scripted pass or hook raises.  Whatever its class, message or lack of arguments, the solver
+    must treat it as 'an exception inside an evaluation pass / hook'."""
+    from fsic.exceptions import NonConvergenceError as NCE, SolutionError as SE
+    table = {
+        'RuntimeError': lambda: RuntimeError('scripted exception'),
+        'ValueError()': lambda: ValueError(),                 # no arguments: e.args == ()
+        'AssertionError()': lambda: AssertionError(),
+        'StopIteration()': lambda: StopIteration(),
+        'KeyError': lambda: KeyError('missing'),
+        'ZeroDivisionError': lambda: ZeroDivisionError('division by zero'),
+        'ScriptedError': lambda: ScriptedError('user-defined', 2),
+        'SolutionError': lambda: SE('a nested solve failed'),            # fsic's own classes, raised by user code
+        'NonConvergenceError': lambda: NCE('a nested solve did not converge'),
+        'IndexError': lambda: IndexError('list index out of range'),
+    }
+    return table[kind or 'RuntimeError']()
+
+
+EXCEPTION_KINDS = ['RuntimeError', 'RuntimeError', 'ValueError()', 'AssertionError()', 'StopIteration()', 'KeyError',
+                   'ZeroDivisionError', 'ScriptedError', 'SolutionError', 'NonConvergenceError', 'IndexError']
+
+
 WARNING_CATEGORIES = {'RuntimeWarning': RuntimeWarning, 'UserWarning': UserWarning, 'FutureWarning': FutureWarning,
                       'DeprecationWarning': DeprecationWarning, 'Warning': Warning, 'ScriptedWarning': ScriptedWarning}
 
@@ -60,6 +87,8 @@ def scripted_class(nE, check, mixins=(), exo=('X',), style=None):
     if key in _CLASSES:
         return _CLASSES[key]
     names = names_for(style, nE)
+    if check == 'ALL':
+        check = list(range(nE))
 
     class Scripted(fsic.BaseModel):
         ENDOGENOUS = list(names)
@@ -89,7 +118,7 @@ def scripted_class(nE, check, mixins=(), exo=('X',), style=None):
             elif k == 'raise':
                 for i, x in enumerate(v[:min(m, nE)]):
                     self._put(names[i], t, x)
-                raise RuntimeError('scripted exception')
+                raise scripted_exception(act.get('exc'))
             elif k == 'warn':
                 for i, x in enumerate(v[:min(m, nE)]):
                     self._put(names[i], t, x)
@@ -104,12 +133,12 @@ def scripted_class(nE, check, mixins=(), exo=('X',), style=None):
             return t + len(self.span) if t < 0 else t
 
         def _cv(self, t):
-            return [float(self.__dict__['_' + n][t]) for n in self.CHECK]
+            return [float(self.__dict__['_' + n][t]) for n in self.check]
 
         def solve_t_before(self, t, *a, **kw):
             self.calls.append('b')
-            self.seen_at_before = [float(self.__dict__['_' + n][t]) for n in names]
-            self.v0 = self._cv(t)
+            self.__dict__['seen_at_before'] = [float(self.__dict__['_' + n][t]) for n in names]
+            self.__dict__['v0'] = self._cv(t)
             acts = self.before_script
             p = self._pos(t)
             super().solve_t_before(t, *a, **kw)
@@ -229,7 +258,10 @@ def with_provenance(make, span, prov, names=(), prepare=None):
 
 def build_instance(case, mixins=(), span=None, exo=('X',)):
     extra = tuple(c for c in mix_classes(case.get('mix')) if c not in mixins)
-    cls = scripted_class(case['nE'], case['check'], tuple(mixins) + extra, exo, case.get('names'))
+    # `check_edit`: the class declares every endogenous variable as a check variable and the INSTANCE's `check` list is
+    # then edited down to the case's subset (what the solver must use is the instance's list)
+    edit = bool(case.get('check_edit'))
+    cls = scripted_class(case['nE'], 'ALL' if edit else case['check'], tuple(mixins) + extra, exo, case.get('names'))
     n = case['n']
     names = names_of(case)
 
@@ -250,6 +282,10 @@ def build_instance(case, mixins=(), span=None, exo=('X',)):
     d['v0'] = None
     d['seen_at_before'] = None
     d['write_mode'] = case.get('write', 'inplace')
+    if edit:
+        m.check = [names[i] for i in case['check']]
+    if case.get('strict'):
+        m.strict = True         # the documented option: no new attributes; solving must be unaffected
     return m
 
 
@@ -261,6 +297,12 @@ def vary_implementation_side(case, rng):
     case['names'] = rng.choice(NAME_STYLES)
     case['argform'] = rng.choice(['plain', 'plain', 'numpy'])
     case['mix'] = rng.choice(MIXES)
+    case['check_edit'] = rng.random() < 0.3
+    case['strict'] = rng.random() < 0.3
+    for acts in case['script'] + [case['before'], case['after']]:
+        for a in acts:
+            if a.get('k') == 'raise':
+                a['exc'] = rng.choice(EXCEPTION_KINDS)
     if rng.random() < 0.4:      # the record of earlier solves (visible to the model too: it must never matter)
         case['status'] = ''.join(rng.choice('-.FES') for _ in range(case['n']))
         case['iters'] = [rng.choice([-1, 0, 3, 7]) for _ in range(case['n'])]
